@@ -110,7 +110,7 @@ package header
 
 //@ iface Store.Head(s, ctx, opts)
 //@   requires [C10,local] deadline: ctxBounded(ctx)
-//@   ensures result1 == nil ==> !result0.IsZero() && result0.Height() == storeHeadH && result0 == chainAt(storeHeadH) && 1 <= storeHeadH
+//@   ensures result1 == nil ==> !result0.IsZero() && result0.Height() == storeHeadH && result0 == chainAt(storeHeadH) && 1 <= storeHeadH && verified(result0)
 //@   ensures result1 != nil ==> result0.IsZero()
 
 //@ iface Store.GetRange(s, ctx, from, to)
